@@ -17,6 +17,17 @@ whose model assumes intact content) and over histories that replace the torrent'
 hashes between operations (`setHashes`; in the model the stored hashes are an argument of the
 operation, theorem `C19_history_hashes`).  On damaged disks sequential iterations are additionally
 compared with `Handles.iterDamaged true` (= C10's `Missing.iterItems`).
+
+Round 3: histories in which the DISK changes between two operations on the same object (`dyn` cases):
+a listed file is truncated / extended / rewritten in place, atomically replaced by a new file of the
+same or another size (rename, unlink + re-create, symlink to a new file), removed (or swapped for a
+dangling symlink) or swapped for a directory.  Model: `Torf.HandlesDisk` (inode store, directory, table of
+(file, inode) handles).  Judged after EVERY operation: (a) a fresh object on the torrent and the disk as
+they are now answers `specOut` (C19_disk_fresh); (b) when the object holds no stale handle (a handle on
+an inode its path no longer names) of a file the operation reads, its answer must be the specification's
+= the fresh object's (C19_disk_independent, C19_history_disk); (c) otherwise its answer must be the
+model's (the old inode is read through the cached handle: operating-system semantics); (d) the number of
+open content descriptors.
 """
 import glob
 import hashlib
@@ -28,7 +39,37 @@ from harness import common
 from harness.gen import layouts
 from harness.impl import content
 
-MATCHERS = {}
+
+def _inplace_change_before(case, step):
+    """the history changes the CONTENT of a listed file in place before `step`"""
+    return any(o[0] == 'disk' and o[1] in ('rewrite', 'extend', 'truncate') for o in case['ops'][:step])
+
+
+def _d19b(case, observed, finding):
+    """D19b: the deviation disappears when the cached handles have no user-space read-ahead buffer
+    (`open(path, 'rb', buffering=0)`), the history rewrote a file in place while the object held a
+    handle of it, and the deviating answer is a reading operation's"""
+    return bool(isinstance(observed, dict) and case.get('dyn')
+                and observed.get('unbuffered_twin') == 'meets-the-expectation'
+                and observed.get('inplace_change_while_open')
+                and isinstance(observed.get('step'), int)
+                and _inplace_change_before(case, observed['step'])
+                and observed.get('op', [None])[0] in READ_OPS)
+
+
+def _d19c(case, observed, finding):
+    """D19c: an indexed read raised TypeError, and the model derives exactly that from its table and disk: the
+    object holds a handle of a file it reads whose path names nothing any more (an earlier step removed it)"""
+    return bool(isinstance(observed, dict) and case.get('dyn')
+                and observed.get('observed') == ['err', 'TypeError']
+                and observed.get('model_answer') == ['err', 'TypeError']
+                and observed.get('op', [None])[0] in ('getPiece', 'getPieceHash', 'verifyPiece')
+                and isinstance(observed.get('step'), int)
+                and any(o[0] == 'disk' and o[1] == 'unlink' for o in case['ops'][:observed['step']]))
+
+
+MATCHERS = {'stale_read_ahead_after_inplace_rewrite': _d19b,
+            'type_error_for_vanished_file_with_cached_handle': _d19c}
 
 RULE = ('case = (piece length, file sizes >= 1, handle cap, wrong stored hashes, history of '
         'operations on ONE TorrentFileStream object); operations: iterFull, iterAbandon k '
@@ -42,7 +83,13 @@ RULE = ('case = (piece length, file sizes >= 1, handle cap, wrong stored hashes,
         'alphabet on two 3/5-file layouts under every single-file damage; all verifyPiece i; '
         'setHashes x; verifyPiece j triples on one layout.  non-trivial = the history contains a reading operation that '
         'actually opens/reads files and follows another such operation on the same object with no '
-        'close in between; distinct = distinct (L, sizes, cap, wrong, history)')
+        'close in between; distinct = distinct (L, sizes, cap, wrong, history).  dyn cases: the history also '
+        'contains disk changes [disk, kind, file, n, via]: truncate n | extend +n | rewrite n (in place), '
+        'replace n (new inode: rename | unlink+create | symlink), unlink (unlink | dangling symlink), '
+        'mkdir; exhaustive A; X; B (A, B reduced read alphabet, X every change of every file) on two '
+        'layouts, random longer histories with ~35 % disk changes (a quarter on initially damaged disks); '
+        'non-trivial there = a reading operation follows a disk change that follows a reading operation, '
+        'no close in between')
 
 READ_OPS = ('iterFull', 'iterAbandon', 'getPiece', 'getPieceHash', 'verifyPiece')
 
@@ -51,14 +98,16 @@ READ_OPS = ('iterFull', 'iterAbandon', 'getPiece', 'getPieceHash', 'verifyPiece'
 # real-code side (worker processes)
 
 def _nfd(top):
+    """number of descriptors of this process that point into the content tree(s) `top` (a path or a tuple of paths)"""
+    tops = (top,) if isinstance(top, str) else tuple(top)
+    pres = tuple(t + os.sep for t in tops)
     n = 0
-    pre = top + os.sep
     for e in os.listdir('/proc/self/fd'):
         try:
             tgt = os.readlink('/proc/self/fd/' + e)
         except OSError:
             continue
-        if tgt == top or tgt.startswith(pre):
+        if tgt in tops or tgt.startswith(pres):
             n += 1
     return n
 
@@ -78,8 +127,14 @@ def _exc_key(e, index_of):
     return [index_of.get(str(p), -1) if p is not None else -1, n]
 
 
-def _item(p, exc, index_of):
-    return [p, sorted(_exc_key(x, index_of) for x in exc)]
+_ROOT = [None]      # dyn cases: the directory every path reported by iter_pieces() must lie in (effective content path)
+
+
+def _item(p, exc, index_of, fp=None):
+    es = sorted(_exc_key(x, index_of) for x in exc)
+    if _ROOT[0] is not None and fp is not None and not str(fp).startswith(_ROOT[0] + os.sep):
+        es.append([-2, 'path-outside-the-content-path'])
+    return [p, es]
 
 
 _PEAK = [0]
@@ -99,30 +154,31 @@ def _counting_open(top):
     return _open
 
 
-def _do_op(tfs, op, top, index_of):
+def _do_op(tfs, op, top, index_of, cp=None):
     """perform one operation; returns (result, max number of content fds seen while it ran)"""
-    res, peak = _do_op1(tfs, op, top, index_of)
+    res, peak = _do_op1(tfs, op, top, index_of, cp)
     return res, max(peak, _PEAK[0])
 
 
-def _do_op1(tfs, op, top, index_of):
-    name, a = op[0], (op[1] if len(op) > 1 else None)
+def _do_op1(tfs, op, top, index_of, cp=None):
+    name, a = op[0], (op[1] if len(op) > 1 and not isinstance(op[1], dict) else None)
+    kw = {} if cp is None else {'content_path': cp}
     peak = 0
     _PEAK[0] = 0
     try:
         if name == 'iterFull':
             got = []
-            for (p, fp, exc) in tfs.iter_pieces():
-                got.append(_item(p, exc, index_of))
+            for (p, fp, exc) in tfs.iter_pieces(**kw):
+                got.append(_item(p, exc, index_of, fp))
                 peak = max(peak, _nfd(top))
             res = ('pieces', got)
         elif name == 'iterAbandon':
-            it = tfs.iter_pieces()
+            it = tfs.iter_pieces(**kw)
             got = []
             try:
                 for _ in range(a):
                     (p, fp, exc) = next(it)
-                    got.append(_item(p, exc, index_of))
+                    got.append(_item(p, exc, index_of, fp))
                     peak = max(peak, _nfd(top))
             except StopIteration:
                 pass
@@ -130,11 +186,11 @@ def _do_op1(tfs, op, top, index_of):
             del it
             res = ('pieces', got)
         elif name == 'getPiece':
-            res = ('piece', tfs.get_piece(a))
+            res = ('piece', tfs.get_piece(a, **kw))
         elif name == 'getPieceHash':
-            res = ('digest', tfs.get_piece_hash(a))
+            res = ('digest', tfs.get_piece_hash(a, **kw))
         elif name == 'verifyPiece':
-            res = ('bool', tfs.verify_piece(a))
+            res = ('bool', tfs.verify_piece(a, **kw))
         elif name == 'close':
             res = ('none', tfs.close())
         elif name == 'ctxExit':
@@ -303,6 +359,276 @@ def _run_chunk(cases):
             obs['exc'] = f'{type(e).__name__}: {e}'
         out.append((c, obs, contents))
     return out
+
+
+# ------------------------------------------------------------------------------------------
+# histories with disk changes (`dyn` cases): real-code side
+
+_GEN = 256      # every generated content is cut from a block of this many bytes (random.randbytes is not prefix-stable)
+
+
+def dyn_roots(c):
+    return c.get('roots', 1)
+
+
+def dyn_content(c, cid, n):
+    """bytes of content number `cid` (see Driver.C19.D.history): j = recorded content of file j, nfiles + q = filler /
+    corrupt content of path q = root * nfiles + j at the start, nfiles + roots*nfiles + pos = content created by
+    history step `pos`"""
+    nf = len(c['sizes'])
+    if cid < nf:
+        return content.file_bytes(c['cseed'], cid, c['sizes'][cid])[:n]
+    assert n <= _GEN
+    if cid < nf + dyn_roots(c) * nf:
+        return content.file_bytes(c['cseed'] + 1, cid - nf, _GEN)[:n]
+    return content.file_bytes(c['cseed'] + 2, cid, _GEN)[:n]
+
+
+def op_dec(op):
+    """decoration of a reading operation: {'cp': root, 'fault': [file, 'read' | 'seek']}"""
+    return op[-1] if isinstance(op[-1], dict) else {}
+
+
+def op_plain(op):
+    return op[:-1] if isinstance(op[-1], dict) else op
+
+
+def eff_root(c, op):
+    """the root `_get_content_path` chooses: argument > constructor argument > Torrent.path (root 0)"""
+    cp = op_dec(op).get('cp')
+    if cp is not None:
+        return cp
+    return c.get('ctor') if c.get('ctor') is not None else 0
+
+
+class DynContents:
+    """cid -> bytes, long enough for every run the model can mention"""
+
+    def __init__(self, c):
+        self.c = c
+        self.cache = {}
+
+    def __getitem__(self, cid):
+        if cid not in self.cache:
+            self.cache[cid] = dyn_content(self.c, cid, _GEN)
+        return self.cache[cid]
+
+
+def _rm_path(p):
+    if os.path.islink(p) or os.path.isfile(p):
+        os.unlink(p)
+    elif os.path.isdir(p):
+        os.rmdir(p)
+
+
+def _apply_disk(c, top, paths, pos, op):
+    """perform the disk change `op` = ['disk', kind, j, n?, via?] (history step number `pos`)"""
+    kind, j = op[1], op[2]                  # j = path number: root * nfiles + listed file
+    n = op[3] if len(op) > 3 and op[3] is not None else 0
+    via = op[4] if len(op) > 4 else None
+    p = paths[j]
+    cid = len(c['sizes']) * (1 + dyn_roots(c)) + pos
+    if kind in ('truncate', 'extend', 'rewrite'):
+        if not os.path.isfile(p):          # ENOENT / EISDIR: nothing happens (so says the model)
+            return
+        if kind == 'truncate':
+            os.truncate(p, min(n, os.path.getsize(p)))
+        elif kind == 'extend':
+            with open(p, 'ab') as fh:
+                fh.write(dyn_content(c, cid, n))
+        else:
+            with open(p, 'r+b') as fh:
+                fh.write(dyn_content(c, cid, n))
+                fh.truncate()
+    elif kind == 'replace':
+        aux_dir = os.path.join(top, '.aux')
+        os.makedirs(aux_dir, exist_ok=True)
+        aux = os.path.join(aux_dir, f'c{cid}')
+        with open(aux, 'wb') as fh:
+            fh.write(dyn_content(c, cid, n))
+        if via == 'symlink':
+            _rm_path(p)
+            os.symlink(aux, p)
+        elif via == 'recreate':
+            _rm_path(p)
+            with open(p, 'xb') as fh:
+                fh.write(dyn_content(c, cid, n))
+            os.unlink(aux)
+        else:
+            if os.path.isdir(p) and not os.path.islink(p):
+                os.rmdir(p)
+            os.replace(aux, p)
+    elif kind == 'unlink':
+        _rm_path(p)
+        if via == 'dangling':
+            os.symlink(os.path.join(top, '.aux', 'no-such-file'), p)
+    elif kind == 'mkdir':
+        _rm_path(p)
+        os.mkdir(p)
+    else:
+        raise RuntimeError(f'unknown disk change {kind}')
+
+
+_ARMED = {}
+
+
+class _FH:
+    """file object handed to torf._stream: the real one, except that an armed transient fault makes the next
+    read() / seek() on the armed path raise OSError(EIO) once"""
+    __slots__ = ('_f', '_p')
+
+    def __init__(self, f, p):
+        self._f = f
+        self._p = p
+
+    def _fault(self, kind):
+        if _ARMED and _ARMED.get('path') == self._p and _ARMED.get('kind') == kind and not _ARMED.get('fired') \
+                and not _ARMED.get('paused'):
+            _ARMED['fired'] = True
+            import errno
+            raise OSError(errno.EIO, 'injected transient I/O error', self._p)
+
+    def read(self, *a):
+        self._fault('read')
+        return self._f.read(*a)
+
+    def seek(self, *a):
+        self._fault('seek')
+        return self._f.seek(*a)
+
+    def __getattr__(self, n):
+        return getattr(self._f, n)
+
+    def __bool__(self):
+        return True
+
+
+def _dyn_open(tops, unbuffered):
+    import builtins
+
+    def _open(*a, **k):
+        if unbuffered and len(a) < 3 and 'buffering' not in k:
+            k['buffering'] = 0
+        fh = builtins.open(*a, **k)
+        n = _nfd(tops)
+        if n > _PEAK[0]:
+            _PEAK[0] = n
+        return _FH(fh, str(a[0]))
+    return _open
+
+
+def root_names(c):
+    return ['T'] + [f'T{r}' for r in range(1, dyn_roots(c))]
+
+
+def _run_chunk_dyn(cases, unbuffered=False):
+    torf = common.import_torf()
+    from torf import _stream
+    wd = common.worker_dir()
+    out = []
+    for c in cases:
+        L, sizes = c['L'], c['sizes']
+        nf = len(sizes)
+        files = [{'path': p, 'size': s} for p, s in zip(c['paths'], sizes)]
+        names = root_names(c)
+        tops = tuple(os.path.join(wd, nm) for nm in names)
+        _stream.open = _dyn_open(tops, unbuffered)
+        obs = {'rows': []}
+        _ARMED.clear()
+        try:
+            states = disk_of_dyn(c)
+            paths = []
+            for r, nm in enumerate(names):
+                good = content.make_tree(wd, nm, files, seed=c['cseed'])
+                for j, f in enumerate(files):          # the disk state the history starts from
+                    q = r * nf + j
+                    pth = os.path.join(tops[r], *f['path'])
+                    paths.append(pth)
+                    st = states[q]
+                    if st == 'missing':
+                        os.unlink(pth)
+                    elif st == 'corrupt':
+                        with open(pth, 'wb') as fh:
+                            fh.write(dyn_content(c, nf + q, sizes[j]))
+                    elif st != 'ok':
+                        with open(pth, 'wb') as fh:
+                            fh.write((good[j] + dyn_content(c, nf + q, max(0, int(st) - len(good[j]))))[:int(st)])
+            index_of = {p: i for i, p in enumerate(paths)}
+            stream = b''.join(good)
+            T = len(stream)
+            t = content.make_torrent(torf, wd, names[0], files, L)
+            sym = sym_orig(L, T, c['wrong'])
+            cur = _store(t, sym, stream)
+            base = _nfd(tops)
+            ctor = c.get('ctor')
+
+            def new_stream():
+                x = _stream.TorrentFileStream(t) if ctor is None else _stream.TorrentFileStream(t, content_path=tops[ctor])
+                if c['cap'] != 10:
+                    x.max_open_files = c['cap']
+                return x
+            tfs = new_stream()
+            obs['cap_seen'] = tfs.max_open_files
+            version, fresh_cache = 0, {}
+            for pos, op in enumerate(c['ops']):
+                if op[0] == 'setHashes':
+                    sym = sym_apply(sym, op, L, T, c['wrong'])
+                    cur = _store(t, sym, stream)
+                    obs['rows'].append({'res': ('none', None), 'nfd': _nfd(tops) - base, 'peak': 0})
+                    continue
+                if op[0] == 'disk':
+                    _apply_disk(c, tops[0], paths, pos, op)
+                    version += 1
+                    obs['rows'].append({'res': ('none', None), 'nfd': _nfd(tops) - base, 'peak': 0})
+                    continue
+                dec, plain = op_dec(op), op_plain(op)
+                cp = None if dec.get('cp') is None else tops[dec['cp']]
+                _ROOT[0] = tops[eff_root(c, op)]
+                _ARMED.clear()
+                if dec.get('fault'):
+                    _ARMED.update(path=paths[eff_root(c, op) * nf + dec['fault'][0]], kind=dec['fault'][1], fired=False)
+                res, peak = _do_op(tfs, plain, tops, index_of, cp)
+                row = {'res': res, 'nfd': _nfd(tops) - base, 'peak': peak - base}
+                if dec.get('fault'):
+                    row['fired'] = bool(_ARMED.get('fired'))
+                _ARMED.clear()
+                if op[0] in READ_OPS:
+                    # the property itself: the same operation with the same arguments on a FRESH object, on the torrent
+                    # and the disk as they are NOW (no fault)
+                    ck = (version, json.dumps(plain), dec.get('cp'), cur)
+                    if ck not in fresh_cache:
+                        f = new_stream()
+                        fresh_cache[ck] = _do_op(f, plain, tops, index_of, cp)[0]
+                        f.close()
+                        del f
+                    row['fresh'] = fresh_cache[ck]
+                obs['rows'].append(row)
+            tfs.close()
+            del tfs
+        except BaseException as e:  # noqa
+            obs['exc'] = f'{type(e).__name__}: {e}'
+        finally:
+            _ROOT[0] = None
+            _ARMED.clear()
+        out.append((c, obs, None))
+    return out
+
+
+def disk_of_dyn(c):
+    """initial state of every path (root-major): 'ok' | 'missing' | 'corrupt' (right size, other bytes) | size"""
+    n = len(c['sizes']) * dyn_roots(c)
+    d = list(c.get('disk') or [])
+    return d + ['ok'] * (n - len(d))
+
+
+def dir_size():
+    """st_size of an empty directory on the scratch file system (what os.path.getsize answers for a listed path
+    that is a directory)"""
+    d = os.path.join(common.worker_dir(), 'probe-dir')
+    os.makedirs(d, exist_ok=True)
+    n = os.path.getsize(d)
+    os.rmdir(d)
+    return n
 
 
 # ------------------------------------------------------------------------------------------
@@ -497,6 +823,211 @@ def gen_hash_histories(ctx, rng):
     return cases
 
 
+# ---- histories with disk changes -----------------------------------------------------------
+
+DYN_FIXED = [
+    (3, [2, 4, 2], 10),
+    (4, [5, 5, 1, 8, 3], 10),
+]
+
+
+def disk_alphabet(sizes, full=True):
+    """every kind of change of every listed file: ['disk', kind, file, n, via]"""
+    A = []
+    for j, sz in enumerate(sizes):
+        A += [['disk', 'truncate', j, sz - 1, None], ['disk', 'extend', j, 1, None], ['disk', 'rewrite', j, sz, None],
+              ['disk', 'replace', j, sz, 'rename'], ['disk', 'replace', j, sz + 1, 'recreate'],
+              ['disk', 'unlink', j, None, 'unlink'], ['disk', 'mkdir', j, None, None]]
+        if full:
+            A += [['disk', 'replace', j, sz, 'symlink'], ['disk', 'replace', j, sz - 1, 'rename'],
+                  ['disk', 'unlink', j, None, 'dangling']]
+    return A
+
+
+def dyn_read_alphabet(np_):
+    mid = max(1, np_ // 2)
+    A = [['iterFull'], ['iterAbandon', 1], ['iterAbandon', mid + 1], ['getPiece', 0], ['getPiece', mid],
+         ['getPiece', np_ - 1], ['verifyPiece', mid], ['getPieceHash', np_ - 1]]
+    seen, out = set(), []
+    for a in A:
+        k = json.dumps(a)
+        if k not in seen:
+            seen.add(k)
+            out.append(a)
+    return out
+
+
+def random_disk_op(rng, sizes, cur):
+    """one random change; `cur[j]` = current size of the regular file at path j, None = absent, -1 = directory
+    (updated).  Sizes return to the recorded size often: a history in which every file stays bad is dull."""
+    j = rng.randrange(len(sizes))
+    rec, sz = sizes[j], cur[j]
+    r = rng.random()
+    if sz is not None and sz >= 0:
+        if r < 0.22:
+            n = rec if sz > rec else max(0, sz - rng.choice([1, 1, 2]))
+            cur[j] = min(n, sz)
+            return ['disk', 'truncate', j, n, None]
+        if r < 0.44:
+            n = rec - sz if sz < rec else rng.choice([1, 1, 2])
+            cur[j] = sz + n
+            return ['disk', 'extend', j, n, None]
+        if r < 0.58:
+            n = rng.choice([sz, sz, rec])
+            cur[j] = n
+            return ['disk', 'rewrite', j, n, None]
+    if r < 0.84 or (sz is None or sz < 0) and r < 0.93:
+        n = rng.choice([rec, rec, rec, rec + 1, max(0, rec - 1)])
+        cur[j] = n
+        return ['disk', 'replace', j, n, rng.choice(['rename', 'rename', 'recreate', 'symlink'])]
+    if r < 0.96:
+        cur[j] = None
+        return ['disk', 'unlink', j, None, rng.choice(['unlink', 'unlink', 'dangling'])]
+    cur[j] = -1
+    return ['disk', 'mkdir', j, None, None]
+
+
+def _mk_dyn(rng, L, sizes, ops, cap=10, wrong=(), shape='dyn', lay=None, disk=None, roots=1, ctor=None):
+    c = _mk(rng, L, sizes, ops, cap=cap, wrong=wrong, shape=shape, lay=lay)
+    c['dyn'] = True
+    if disk and any(d != 'ok' for d in disk):
+        c['disk'] = list(disk)
+    if roots != 1:
+        c['roots'] = roots
+    if ctor is not None:
+        c['ctor'] = ctor
+    return c
+
+
+def with_dec(op, cp=None, fault=None):
+    d = {}
+    if cp is not None:
+        d['cp'] = cp
+    if fault is not None:
+        d['fault'] = list(fault)
+    return list(op) + [d] if d else list(op)
+
+
+def fault_kinds(op):
+    """where a transient OSError is caught by the code: seek and read inside get_piece's try block, read inside the
+    reader of iter_pieces (its seek is outside the try block and practically never fails on a regular file)"""
+    return ('read', 'seek') if op[0] in ('getPiece', 'getPieceHash', 'verifyPiece') else ('read',)
+
+
+def random_root_states(rng, sizes, roots):
+    """root 0: mostly intact; the other copies: some files corrupt (right size, other bytes), missing or mis-sized"""
+    out = []
+    for r in range(roots):
+        p_bad = 0.12 if r == 0 else 0.45
+        for s_ in sizes:
+            if rng.random() < p_bad:
+                out.append(rng.choice(['corrupt', 'corrupt', 'missing', s_ + 1] + ([s_ - 1] if s_ > 1 else [])))
+            else:
+                out.append('ok')
+    return out
+
+
+def gen_dyn_cases(ctx, rng, scale=1.0):
+    cases = []
+    # exhaustive: read; change; read (every change of every file), on two layouts
+    for (L, sizes, cap) in DYN_FIXED:
+        np_ = npieces(L, sizes)
+        lay = {'paths': layouts.paths_for(len(sizes), rng, nested=False), 'cseed': rng.randrange(1, 1 << 30)}
+        R = dyn_read_alphabet(np_)
+        X = disk_alphabet(sizes, full=ctx.thorough or len(sizes) <= 3)
+        for a in R:
+            for x in X:
+                for b in R:
+                    cases.append(_mk_dyn(rng, L, sizes, [a, x, b], cap=cap, shape=f'dyn-exhaustive-{len(sizes)}files', lay=lay))
+        # ... and a sample of read; change; read; change; read (all of them in the thorough tier on the small layout)
+        n5 = int((400 if not ctx.thorough else 20000) * scale)
+        Xs = disk_alphabet(sizes, full=True)
+        for _ in range(n5):
+            h = [rng.choice(R), rng.choice(Xs), rng.choice(R), rng.choice(Xs), rng.choice(R)]
+            cases.append(_mk_dyn(rng, L, sizes, h, cap=cap, shape=f'dyn-sampled5-{len(sizes)}files', lay=lay))
+    # both directions of a size change, exhaustively: a file that is bad at first is repaired (in place / by a new
+    # file), a good one goes bad
+    for (L, sizes, cap) in DYN_FIXED[:1] if not ctx.thorough else DYN_FIXED:
+        np_ = npieces(L, sizes)
+        lay = {'paths': layouts.paths_for(len(sizes), rng, nested=False), 'cseed': rng.randrange(1, 1 << 30)}
+        R = dyn_read_alphabet(np_)
+        for j, sz in enumerate(sizes):
+            for st, fix in ((sz - 1, ['disk', 'extend', j, 1, None]), (sz + 1, ['disk', 'truncate', j, sz, None]),
+                            ('missing', ['disk', 'replace', j, sz, 'recreate']), (sz - 1, ['disk', 'replace', j, sz, 'rename']),
+                            (sz + 1, ['disk', 'rewrite', j, sz, None])):
+                disk = ['ok'] * j + [st] + ['ok'] * (len(sizes) - j - 1)
+                for a in R:
+                    for b in R:
+                        cases.append(_mk_dyn(rng, L, sizes, [a, fix, b], cap=cap, shape='dyn-exhaustive-repair', lay=lay, disk=disk))
+    # the content_path argument: two copies of the content (the second one with a corrupt / missing / short file),
+    # every pair of reading operations under every pair of content paths, with and without a constructor argument
+    for (L, sizes, cap) in DYN_FIXED[:1]:
+        np_ = npieces(L, sizes)
+        lay = {'paths': layouts.paths_for(len(sizes), rng, nested=False), 'cseed': rng.randrange(1, 1 << 30)}
+        R = dyn_read_alphabet(np_)
+        for bad in (['ok', 'corrupt', 'ok'], ['missing', 'ok', 'ok'], ['ok', 'ok', sizes[2] - 1]):
+            disk = ['ok'] * len(sizes) + bad
+            for ctor in ((None, 1) if bad[1] == 'corrupt' or ctx.thorough else (None,)):
+                for a in R:
+                    for b in R:
+                        for (ca, cb) in ((None, 1), (1, None), (0, 1), (1, 0)) + (((1, 1),) if ctor is None else ()):
+                            cases.append(_mk_dyn(rng, L, sizes, [with_dec(a, cp=ca), with_dec(b, cp=cb)], cap=cap,
+                                                 shape='dyn-exhaustive-content-path', lay=lay, disk=disk, roots=2, ctor=ctor))
+    # transient faults: an operation hit by a fault on each file, followed by every reading operation
+    for (L, sizes, cap) in DYN_FIXED[:1] if not ctx.thorough else DYN_FIXED:
+        np_ = npieces(L, sizes)
+        lay = {'paths': layouts.paths_for(len(sizes), rng, nested=False), 'cseed': rng.randrange(1, 1 << 30)}
+        R = dyn_read_alphabet(np_)
+        for a in R:
+            for j in range(len(sizes)):
+                for kind in fault_kinds(a):
+                    for b in R:
+                        cases.append(_mk_dyn(rng, L, sizes, [with_dec(a, fault=(j, kind)), b, ['close'], b], cap=cap,
+                                             shape='dyn-exhaustive-fault', lay=lay))
+    # random longer histories on random layouts: disk changes, content paths, faults, hash replacements mixed
+    n_rand = int(ctx.n(2400, 100000) * scale)
+    per_layout = 8
+    maxlen = 14 if ctx.thorough else 8
+    for _ in range(max(1, n_rand // per_layout)):
+        shape, L, sizes = random_layout(rng)
+        nf = len(sizes)
+        np_ = npieces(L, sizes)
+        lay = {'paths': layouts.paths_for(nf, rng, nested=rng.random() < 0.3), 'cseed': rng.randrange(1, 1 << 30)}
+        cap = 10 if rng.random() < 0.6 else rng.choice([0, 1, 2, 3, 12])
+        roots = rng.choice([1, 1, 1, 2, 2, 3]) if nf <= 6 else rng.choice([1, 1, 2])
+        if roots == 1:
+            disk = random_disk(rng, sizes) if rng.random() < 0.25 else ['ok'] * nf
+        else:
+            disk = random_root_states(rng, sizes, roots)
+        ctor = rng.randrange(roots) if roots > 1 and rng.random() < 0.3 else None
+        p_fault = rng.choice([0, 0, 0.15])
+        for _ in range(per_layout):
+            wrong = [rng.randrange(np_)] if rng.random() < 0.2 else []
+            cur = [(sizes[q % nf] if st in ('ok', 'corrupt') else (None if st == 'missing' else int(st)))
+                   for q, st in enumerate(disk)]
+            ops = []
+            for _ in range(rng.randint(3, maxlen)):
+                if rng.random() < 0.35:
+                    r = rng.randrange(roots)
+                    sub = cur[r * nf:(r + 1) * nf]
+                    o = random_disk_op(rng, sizes, sub)
+                    cur[r * nf:(r + 1) * nf] = sub
+                    o[2] += r * nf
+                    ops.append(o)
+                    continue
+                o = random_op(rng, np_, L)
+                if o[0] in READ_OPS:
+                    cp = rng.randrange(roots) if roots > 1 and rng.random() < 0.6 else None
+                    fault = None
+                    if rng.random() < p_fault:
+                        fault = (rng.randrange(nf), rng.choice(fault_kinds(o)))
+                    o = with_dec(o, cp=cp, fault=fault)
+                ops.append(o)
+            cases.append(_mk_dyn(rng, L, sizes, ops, cap=cap, wrong=wrong, shape='dyn-random-' + shape, lay=lay,
+                                 disk=disk, roots=roots, ctor=ctor))
+    return cases
+
+
 def gen_cases(ctx, scale=1.0):
     rng = ctx.rng
     cases = []
@@ -523,6 +1054,8 @@ def gen_cases(ctx, scale=1.0):
     # 1b. damaged disks and replaced stored hashes (exhaustive short histories)
     cases += gen_hash_histories(ctx, rng)
     cases += gen_damaged_fixed(ctx, rng)
+    # 1c. histories in which the disk changes between two operations
+    cases += gen_dyn_cases(ctx, rng, scale)
     # 2. random longer histories on random layouts (a layout is shared by a batch of histories)
     n_rand = int(ctx.n(3000, 120000) * scale)
     per_layout = 8
@@ -617,6 +1150,11 @@ def case_view(c):
     v = {k: c[k] for k in ('L', 'sizes', 'cap', 'wrong', 'ops', 'paths', 'cseed', 'single')}
     if damaged(c):
         v['disk'] = disk_of(c)
+    if c.get('dyn'):
+        v['dyn'] = True
+        v['disk'] = disk_of_dyn(c)
+        v['roots'] = dyn_roots(c)
+        v['ctor'] = c.get('ctor')
     return v
 
 
@@ -648,6 +1186,13 @@ def _digest_collision(c, sym, i, contents):
 
 
 def evaluate(ctx, drv, cases):
+    evaluate_static(ctx, drv, [c for c in cases if not c.get('dyn')])
+    evaluate_dyn(ctx, drv, [c for c in cases if c.get('dyn')])
+
+
+def evaluate_static(ctx, drv, cases):
+    if not cases:
+        return
     syms = [sym_states(c) for c in cases]
     reqs, where_req, dreqs = [], {}, {}
     for n, c in enumerate(cases):
@@ -753,6 +1298,219 @@ def evaluate(ctx, drv, cases):
                         ctx.corr_break('c19.damagedIter', case, {**where, 'model': _short(m)},
                                        {**where, 'impl': _short(i)})
                         break
+
+
+# ---- histories with disk changes: comparison -----------------------------------------------
+
+def _drv_ops_dyn(c, syms):
+    out = []
+    for o, sym in zip(c['ops'], syms):
+        if o[0] == 'setHashes':
+            out.append({'op': 'setHashes', 'stored': sym or []})
+        elif o[0] == 'disk':
+            d = {'op': 'disk', 'kind': o[1], 'j': o[2]}
+            if len(o) > 3 and o[3] is not None:
+                d['n'] = max(0, o[3])
+            out.append(d)
+        else:
+            dec, pl = op_dec(o), op_plain(o)
+            d = {'op': pl[0]}
+            if len(pl) > 1:
+                d['a'] = pl[1]
+            if dec.get('cp') is not None:
+                d['cp'] = dec['cp']
+            if dec.get('fault'):
+                d['fault'] = dec['fault'][0]
+            out.append(d)
+    return out
+
+
+def _canon_model_dyn(out, contents, cmp=None, base=0):
+    """answer of HandlesDisk.run / specOut -> the value the real call must return (`base` = number of the path of
+    listed file 0 under the content path in effect)"""
+    k = out['k']
+    if k == 'items':
+        res = []
+        for it in out['v']:
+            d = None if it['data'] is None else content.pieces_from_runs([it['data']], contents)[0]
+            res.append([d, sorted([base + f, e] for f, e in it['excs'])])
+        return ('pieces', res)
+    if k == 'bool' and cmp:
+        # the model compares digests symbolically; equal real bytes of different symbolic bytes are possible
+        # (short pieces): what the real call must return follows from the real bytes
+        p = content.pieces_from_runs([cmp['p']], contents)[0]
+        st = content.pieces_from_runs([cmp['st']['of']], contents)[0]
+        return ('bool', (not cmp['st']['wrong']) and hashlib.sha1(p).digest() == hashlib.sha1(st).digest())
+    if k == 'err' and out['v'] == 'internal':
+        return ('err', 'internal')
+    return _canon_model(out, contents)
+
+
+def _canon_impl_dyn(res):
+    res = _canon_impl(res)
+    if res[0] in ('digest', 'bool') and res[1] is None:      # get_piece_hash / verify_piece returned None
+        return ('none', None)
+    return res
+
+
+def _same(impl, want):
+    if want == ('err', 'internal'):          # an undocumented exception escapes: any kind
+        return impl[0] == 'err'
+    return impl == want
+
+
+def dyn_nontrivial(c):
+    """a reading operation follows (a disk change | an operation hit by a fault | a reading operation under another
+    content path) that follows a reading operation, no close in between"""
+    st, root = 0, None
+    for op in c['ops']:
+        if op[0] in ('close', 'ctxExit'):
+            st, root = 0, None
+        elif op[0] in READ_OPS and not (op[0] == 'iterAbandon' and op[1] == 0):
+            r = eff_root(c, op)
+            if st == 2 or (st == 1 and root is not None and r != root):
+                return True
+            st = 2 if op_dec(op).get('fault') else max(st, 1)
+            root = r
+        elif op[0] == 'disk' and st >= 1:
+            st = 2
+    return False
+
+
+def evaluate_dyn(ctx, drv, cases):
+    if not cases:
+        return
+    dsz = dir_size()
+    syms = [sym_states(c) for c in cases]
+    reqs = [{'op': 'c19.diskHistory', 'L': c['L'], 'sizes': c['sizes'], 'cap': c['cap'], 'wrong': c['wrong'],
+             'roots': dyn_roots(c), **({'ctor': c['ctor']} if c.get('ctor') is not None else {}),
+             'disk': disk_of_dyn(c), 'dirsize': dsz, 'ops': _drv_ops_dyn(c, syms[n])} for n, c in enumerate(cases)]
+    replies = drv.run(reqs)
+    results = common.pmap(_run_chunk_dyn, common.split(cases, common.NPROC * 4))
+    k = -1
+    for chunk in results:
+        for (c, obs, _) in chunk:
+            k += 1
+            r = replies[k]
+            contents = DynContents(c)
+            key = ('dyn', c['L'], tuple(c['sizes']), c['cap'], tuple(c['wrong']), json.dumps(c['ops']),
+                   tuple(map(str, disk_of_dyn(c))), dyn_roots(c), c.get('ctor'))
+            case = case_view(c)
+            if 'exc' in obs:
+                ctx.case(key=key, nontrivial=False, kind=c['shape'])
+                ctx.violation(f'history raised outside the operations: {obs["exc"]}', case, 'results', obs['exc'])
+                continue
+            hyp = r['hyp']
+            ctx.case(key=key, nontrivial=dyn_nontrivial(c), kind=c['shape'])
+            ctx.dist['disk-changes-in-history'] += 1
+            if any(row['stale'] for row in r['rows']):
+                ctx.dist['dyn:some-step-with-a-stale-handle'] += 1
+            if any(st != 'ok' for st in disk_of_dyn(c)):
+                ctx.dist['dyn:initially-damaged'] += 1
+            if dyn_roots(c) > 1:
+                ctx.dist['dyn:several-content-paths'] += 1
+            if any(op_dec(o).get('fault') for o in c['ops'] if o[0] in READ_OPS):
+                ctx.dist['dyn:with-transient-fault'] += 1
+            if obs.get('cap_seen') != c['cap']:
+                ctx.violation('max_open_files is not the documented default 10', case, c['cap'], obs.get('cap_seen'))
+                continue
+            if ctx.dist['disk-changes-in-history'] % 400 == 1:
+                ctx.sample({'case': case, 'model_rows': r['rows'][:3]})
+            impl = [_canon_impl_dyn(o['res']) for o in obs['rows']]
+            twin = None
+            inplace_open = False
+            nopen_reported = False
+            for n, (op, o, i) in enumerate(zip(c['ops'], obs['rows'], impl)):
+                where = {'step': n, 'op': op}
+                row = r['rows'][n]
+                if op[0] == 'disk':
+                    inplace_open = inplace_open or (op[1] in ('rewrite', 'extend', 'truncate') and row.get('open', False))
+                if op[0] in ('setHashes', 'disk'):
+                    continue
+                nbase = eff_root(c, op) * len(c['sizes']) if op[0] in READ_OPS else 0
+                m = _canon_model_dyn(row['m'], contents, row.get('cmp'), nbase)
+                sp = _canon_model_dyn(row['m'] if row['s'] is None else row['s'], contents, row.get('scmp'), nbase)
+                faulted = bool(op[0] in READ_OPS and op_dec(op).get('fault'))
+                clean = row['clean'] and not faulted
+                if faulted:
+                    # (whether the operation gets to the faulty read at all is part of the model's answer)
+                    if o.get('fired') and not _same(i, ('err', 'ReadError')):
+                        ctx.violation(f'step {n} {op}: a transient OSError from seek()/read() must surface as ReadError',
+                                      case, {**where, 'expected': ['err', 'ReadError']}, {**where, 'observed': _short(i)},
+                                      finding_matchers=MATCHERS)
+                        break
+                if hyp and row['clean'] and not faulted and row['s'] is not None:
+                    ctx.machinery_error(f'model answer differs from the specification at step {n} although the object '
+                                        'holds no stale handle of a file it reads (C19_disk_independent is proved)', case)
+                    break
+                fr = _canon_impl_dyn(o['fresh']) if 'fresh' in o else None
+                # documented outcomes only: TypeError is a crash, whatever the handles are open on
+                if i == ('err', 'TypeError'):
+                    fid = ctx.violation(f'step {n} {op}: an undocumented exception (TypeError) escapes',
+                                        case, {**where, 'expected': 'a piece / digest / bool / None / ReadError / '
+                                               'VerifyFileSizeError / ValueError',
+                                               'fresh_object': None if fr is None else _short(fr)},
+                                        {**where, 'observed': _short(i), 'model_answer': _short(m)},
+                                        finding_matchers=MATCHERS)
+                    if fid is None:
+                        break
+                # (b)/(c) the used object: the specification when it holds no stale handle it reads, else the model
+                want = sp if clean else m
+                dev = None
+                if not _same(i, want):
+                    dev = ('the answer depends on the history (differs from the specification on the torrent, the '
+                           'disk as it is now and the arguments)' if clean else
+                           'the answer is not what the model gives for an operation hit by this fault' if faulted else
+                           'the answer is not what the cached handles (old inodes) and the current disk give')
+                elif clean and fr is not None and i != fr:
+                    dev = 'the answer depends on the history (a fresh object on the same torrent and disk answers differently)'
+                if dev and inplace_open and twin is None:
+                    # the same history with unbuffered handles: does the deviation come from the read-ahead buffer of a
+                    # cached handle?  (finding D19b)
+                    twin = [_canon_impl_dyn(x['res']) for x in _run_chunk_dyn([c], unbuffered=True)[0][1].get('rows', [])]
+                twin_ok = bool(dev and inplace_open and len(twin) > n and all(_same(twin[q], impl[q]) for q in range(n)))
+                if dev and not row['clean']:
+                    # The object holds a stale handle of a path it reads: the property makes no demand of its own there (old
+                    # inode or new path are both operating-system semantics), the reference is the model.  A different answer
+                    # means the model describes other code — a broken correspondence, not a failing input of C19 (TypeError and
+                    # wrongly surfaced faults are judged above).  `explained` says whether the answer is the fresh object's or
+                    # the one of reading the old inodes throughout (apart from D19b's stale read-ahead).
+                    alts = [_canon_model_dyn(al['o'], contents, al.get('cmp'), nbase) for al in row.get('alts', [])]
+                    expl = any(_same(i, al) for al in alts) or twin_ok and any(_same(twin[n], al) for al in alts + [m])
+                    if not (twin_ok and _same(twin[n], want)):          # (that one is D19b: goes to the matcher below)
+                        ctx.corr_break('c19.diskHistory:stale-handle-answer', case, {**where, 'model': _short(m)},
+                                       {**where, 'impl': _short(i), 'explained_by_old_or_new_view': bool(expl)})
+                        break
+                if dev:
+                    payload = {**where, 'observed': _short(i), 'inplace_change_while_open': inplace_open}
+                    if inplace_open:
+                        payload['unbuffered_twin'] = ('meets-the-expectation' if twin_ok and _same(twin[n], want)
+                                                      else 'deviates-as-well')
+                    ctx.violation(f'step {n} {op}: {dev}' + ('' if clean or faulted else ' [stale handle]'),
+                                  case, {**where, 'expected': _short(want), 'fresh_object': None if fr is None else _short(fr)},
+                                  payload, finding_matchers=MATCHERS)
+                    break
+                # (a) a fresh object answers what the specification says, on whatever the disk looks like now
+                if fr is not None and not _same(fr, sp):
+                    ctx.corr_break('c19.diskHistory:fresh-object', case, {**where, 'specOut': _short(sp)},
+                                   {**where, 'fresh_object': _short(fr)})
+                    break
+                bound = c['cap'] + 1
+                if o['nfd'] > bound or o['peak'] > bound:
+                    ctx.violation(f'step {n} {op}: more than max_open_files + 1 = {bound} content files open',
+                                  case, {**where, 'max_open': bound},
+                                  {**where, 'open_after': o['nfd'], 'peak_during': o['peak']}, finding_matchers=MATCHERS)
+                    break
+                if op[0] in ('close', 'ctxExit') and o['nfd'] != 0:
+                    ctx.violation(f'step {n} {op}: files are still open after close()/leaving the context',
+                                  case, {**where, 'open_after': 0}, {**where, 'open_after': o['nfd']},
+                                  finding_matchers=MATCHERS)
+                    break
+                if hyp and o['nfd'] != row['nopen'] and not nopen_reported:
+                    # (keep judging the following answers: a failing input is worth more than this mismatch)
+                    nopen_reported = True
+                    ctx.corr_break('c19.diskHistory:nopen', case, {**where, 'nopen': row['nopen']},
+                                   {**where, 'nopen': o['nfd']})
 
 
 def run(ctx, drv):
